@@ -141,29 +141,36 @@ theorem Full.withServers_nil {cfg : Cfg} {a : AS} (h : Full cfg a) (hs : a.hs.se
 theorem Full.feed {cfg : Cfg} {lb : St} (h : Full cfg lb.sub) (e : Env) : Full cfg (feed lb e).sub :=
   ⟨⟨h.inv.wf, h.inv.nodup, h.inv.kind⟩, h.part, h.snodup, h.lbd, fun r hr => by cases hr⟩
 
-theorem flush_spec (cfg : Cfg) (n : Nat) : ∀ {a : AS}, PInv cfg a →
-    Stable cfg a (flush (sub cfg) n a).1 ∧
-    (∀ g ∈ (flush (sub cfg) n a).2, ∀ nid ep r, g = GetRes.node nid ep r → ep ∈ E (flush (sub cfg) n a).1) := by
-  induction n with
-  | zero => intro a inv; exact ⟨Stable.refl inv, fun g hg => by cases hg⟩
-  | succ n ih =>
+theorem flush_spec (cfg : Cfg) (q : List (Option Bool)) : ∀ {a : AS}, PInv cfg a →
+    Stable cfg a (flush (sub cfg) q a).1 ∧
+    (∀ g ∈ (flush (sub cfg) q a).2, ∀ nid ep r, g = some (GetRes.node nid ep r) → ep ∈ E (flush (sub cfg) q a).1) := by
+  induction q with
+  | nil => intro a inv; exact ⟨Stable.refl inv, fun g hg => by cases hg⟩
+  | cons e q ih =>
     intro a inv
     unfold flush
-    simp only [sub_request]
-    obtain ⟨s1, r1⟩ := get_spec cfg inv
-    obtain ⟨s2, r2⟩ := ih s1.inv
-    refine ⟨s1.trans s2, ?_⟩
-    intro g hg nid ep r he
-    rcases List.mem_cons.1 hg with hg | hg
-    · rw [s2.mem]; exact r1 nid ep r (hg ▸ he)
-    · exact r2 g hg nid ep r he
+    split
+    · simp only [sub_request]
+      obtain ⟨s1, r1⟩ := get_spec cfg inv
+      obtain ⟨s2, r2⟩ := ih s1.inv
+      refine ⟨s1.trans s2, ?_⟩
+      intro g hg nid ep r he
+      rcases List.mem_cons.1 hg with hg | hg
+      · rw [s2.mem]; subst hg; injection he with he; exact r1 nid ep r he
+      · exact r2 g hg nid ep r he
+    · obtain ⟨s2, r2⟩ := ih inv
+      refine ⟨s2, ?_⟩
+      intro g hg nid ep r he
+      rcases List.mem_cons.1 hg with hg | hg
+      · subst hg; cases he
+      · exact r2 g hg nid ep r he
 
 theorem finish_spec (cfg : Cfg) (lb : St) (inv : PInv cfg lb.sub) :
     Stable cfg lb.sub (lb.finish (sub cfg)).1.sub ∧
     (lb.finish (sub cfg)).1.initDone = lb.initDone ∧ (lb.finish (sub cfg)).1.blocked = lb.blocked ∧
-    (∀ g ∈ (lb.finish (sub cfg)).2, ∀ nid ep r, g = GetRes.node nid ep r → ep ∈ E (lb.finish (sub cfg)).1.sub) := by
+    (∀ g ∈ (lb.finish (sub cfg)).2, ∀ nid ep r, g = some (GetRes.node nid ep r) → ep ∈ E (lb.finish (sub cfg)).1.sub) := by
   unfold LB.finish
-  by_cases h0 : (sub cfg).openReady lb.sub = true ∧ 0 < lb.queued
+  by_cases h0 : (sub cfg).openReady lb.sub = true ∧ lb.queued ≠ []
   · simp only [if_pos h0]
     obtain ⟨s2, r2⟩ := flush_spec cfg lb.queued inv
     have s3 := settle_spec cfg s2.inv
@@ -172,7 +179,7 @@ theorem finish_spec (cfg : Cfg) (lb : St) (inv : PInv cfg lb.sub) :
     exact (s3.mem ep).2 (r2 g hg nid ep r he)
   · simp only [if_neg h0]
     have s1 := settle_spec cfg inv
-    by_cases hc : (sub cfg).openReady ((sub cfg).settle lb.sub) = true ∧ 0 < lb.queued
+    by_cases hc : (sub cfg).openReady ((sub cfg).settle lb.sub) = true ∧ lb.queued ≠ []
     · simp only [if_pos hc]
       obtain ⟨s2, r2⟩ := flush_spec cfg lb.queued s1.inv
       have s3 := settle_spec cfg s2.inv
@@ -234,6 +241,28 @@ theorem load_spec (cfg : Cfg) (lb : St) (h : Full cfg lb.sub) (hs : lb.sub.hs.se
   refine ⟨f3, trivial, trivial, ?_⟩
   rw [e3, s2.servers, e1]; rfl
 
+/-- `AsyncProcessRequest`, with or without a deadline event -/
+theorem request_spec (cfg : Cfg) (lb : St) (h : Full cfg lb.sub) (evt : Option Bool) :
+    Full cfg (lb.request (sub cfg) evt).1.sub ∧
+    ((lb.request (sub cfg) evt).1.initDone = lb.initDone ∧ (lb.request (sub cfg) evt).1.blocked = lb.blocked ∧
+      (lb.request (sub cfg) evt).1.sub.hs.servers = lb.sub.hs.servers) ∧
+    (∀ ep ∈ resEps (match (lb.request (sub cfg) evt).2 with | some g => [ResV.ofGet g] | none => [.queued]),
+      ep ∈ E (lb.request (sub cfg) evt).1.sub) := by
+  unfold LB.request
+  by_cases hr : (sub cfg).openReady lb.sub = true
+  · simp only [if_pos hr, sub_request]
+    obtain ⟨st, rs⟩ := get_spec cfg h.inv
+    refine ⟨h.stable st, ⟨trivial, trivial, st.servers⟩, ?_⟩
+    intro x hx
+    cases hg : (lb.sub.get cfg).2 with
+    | noMembers => simp [hg, ResV.ofGet, resEps] at hx
+    | node nid ep r =>
+      simp [hg, ResV.ofGet, resEps] at hx
+      subst hx
+      exact rs nid x r hg
+  · simp only [if_neg hr]
+    exact ⟨h, ⟨trivial, trivial, trivial⟩, fun x hx => by simp [resEps] at hx⟩
+
 theorem act_spec (cfg : Cfg) (lb : St) (op : Op) (h : Full cfg lb.sub)
     (hpre : lb.initDone = false → lb.sub.hs.servers = [])
     (hload : ∀ l e, op = .loaded l e → lb.initDone = false) :
@@ -252,22 +281,20 @@ theorem act_spec (cfg : Cfg) (lb : St) (op : Op) (h : Full cfg lb.sub)
   | leave ep e =>
     obtain ⟨a, b⟩ := notify_spec cfg (feed lb e) (h.feed e) (.leave ep)
     exact ⟨a, b, fun x hx => by cases hx⟩
-  | get e =>
+  | get e => exact request_spec cfg (feed lb e) (h.feed e) none
+  | getd e => exact request_spec cfg (feed lb e) (h.feed e) (some false)
+  | expire k =>
     simp only [act]
-    unfold LB.request
-    by_cases hr : (sub cfg).openReady (feed lb e).sub = true
-    · simp only [if_pos hr, sub_request]
-      obtain ⟨st, rs⟩ := get_spec cfg (h.feed e).inv
-      refine ⟨(h.feed e).stable st, ⟨rfl, rfl, st.servers⟩, ?_⟩
-      intro x hx
-      cases hg : ((feed lb e).sub.get cfg).2 with
-      | noMembers => simp [hg, ResV.ofGet, resEps] at hx
-      | node nid ep r =>
-        simp [hg, ResV.ofGet, resEps] at hx
-        subst hx
-        exact rs nid x r hg
-    · simp only [if_neg hr]
-      exact ⟨h.feed e, ⟨rfl, rfl, rfl⟩, fun x hx => by simp [resEps] at hx⟩
+    cases hx : (feed lb ⟨[], []⟩).expire k with
+    | none =>
+      exact ⟨(h.feed ⟨[], []⟩).stable (Stable.of_same (h.feed ⟨[], []⟩).inv rfl rfl rfl rfl),
+        ⟨rfl, rfl, rfl⟩, fun x hx => by cases hx⟩
+    | some lb2 =>
+      unfold LB.expire at hx
+      split at hx
+      · injection hx with hx; subst hx
+        exact ⟨h.feed ⟨[], []⟩, ⟨rfl, rfl, rfl⟩, fun x hx => by cases hx⟩
+      · cases hx
   | put r j e =>
     have st := put_spec cfg (h.feed e).inv r j
     exact ⟨(h.feed e).stable st, ⟨rfl, rfl, st.servers⟩, fun x hx => by cases hx⟩
@@ -315,11 +342,14 @@ theorem stepSt_spec (cfg : Cfg) (lb : St) (op : Op) (h : Full cfg lb.sub)
         obtain ⟨rv, hrv, he⟩ := hx
         obtain ⟨g, hg, rfl⟩ := List.mem_map.1 hrv
         cases g with
-        | noMembers => simp [ResV.ofGet] at he
-        | node nid ep r =>
-          simp [ResV.ofGet] at he
-          subst he
-          exact r2 _ hg nid ep r rfl
+        | none => simp [ResV.ofFlush] at he
+        | some g =>
+          cases g with
+          | noMembers => simp [ResV.ofFlush, ResV.ofGet] at he
+          | node nid ep r =>
+            simp [ResV.ofFlush, ResV.ofGet] at he
+            subst he
+            exact r2 _ hg nid ep r rfl
     · rw [s2.mem]; exact r1 x (resEps_filter_sub _ _ x hx)
 
 end Scales.LB
